@@ -1516,6 +1516,12 @@ impl<'a> HydrateCtx<'a> {
 						if got_total != want_total {
 							self.bad(&format!("block:{}:offset", label), format!("{}: header total kernel offset {} expected {}", desc, hex(&got_total), hex(&want_total)), case0.clone());
 						} else if let Err(e) = b2.validate(&prev2.total_kernel_offset) {
+							// the reference does not model block weight: five-transaction sets exceed the
+							// AutomatedTesting limit, and the same body is refused on the plain header too
+							if format!("{:?}", e).contains("TooHeavy") && block.validate(&self.prev.total_kernel_offset).is_err() {
+								self.r.outcome(&format!("block:{}:too-heavy-for-test-limit", label));
+								continue;
+							}
 							self.bad(&format!("block:{}:invalid", label), format!("{}: the block built on that header does not validate against it: {:?}", desc, e), case0.clone());
 						} else {
 							let cb = CompactBlock::from(b2.clone());
